@@ -7,6 +7,7 @@ import (
 	"github.com/ozontech/seq-db/frac"
 	"github.com/ozontech/seq-db/frac/lids"
 	"github.com/ozontech/seq-db/frac/token"
+	"github.com/ozontech/seq-db/seq"
 	rt "github.com/ozontech/seq-db/verifrt"
 )
 
@@ -16,7 +17,51 @@ func vNewActive(base string) *frac.Active { vServedActive = append(vServedActive
 func vNoFracCache(string) *sealedFracCache { return nil }
 func vLoadSealed(_ *sealedFracCache, info *fracInfo) *frac.Sealed {
 	vServedSealed = append(vServedSealed, info.base)
+	if i, ok := vSealedInfos[info.base]; ok {
+		// (what fractionProvider.NewSealed does with an info from the fraction cache)
+		return frac.NewSealed(info.base, nil, vIndexCache(), cache.NewCache[[]byte](nil, nil), i, &frac.Config{})
+	}
 	return nil
+}
+
+// infos of the sealed fractions of VerifLoadOrder, by base file name
+var vSealedInfos map[string]*frac.Info
+
+// VerifLoadOrder: the list of fractions the loader hands to the fraction manager is in creation
+// order (the order of the fraction names), whatever time ranges their documents cover - size-based
+// retention removes the head of that list, which must be the oldest fraction.
+func VerifLoadOrder() {
+	fs := frac.VerifFS
+	fs.Files, fs.Unsynced, fs.Ops, fs.CrashAt, fs.FailAt, fs.Failed, fs.Opened, fs.SealedDocs = map[string]bool{}, map[string]bool{}, 0, 0, 0, "", "", ""
+	vServedActive, vServedSealed = nil, nil
+	vSealedInfos = map[string]*frac.Info{}
+	n := rt.Param("FRACS")
+	var bases []string
+	for i := 0; i < n; i++ {
+		base := "/data/seq-db-0" + string([]byte{byte('1' + i)})
+		bases = append(bases, base)
+		fs.Files[base+".index"] = true
+		if rt.Choose(2) == 0 {
+			fs.Files[base+".sdocs"] = true
+		} else {
+			fs.Files[base+".docs"] = true
+		}
+		// documents of any time range: a late-created fraction may hold old documents
+		from, to := seq.MID(rt.NondetU64()), seq.MID(rt.NondetU64())
+		rt.Assume(from <= to)
+		vSealedInfos[base] = &frac.Info{Path: base, IndexOnDisk: 1, DocsTotal: 1, From: from, To: to, CreationTime: uint64(1000 * (i + 1))}
+	}
+	l := NewLoader(&Config{DataDir: "/data"}, nil, NewSealedFracCache("/data/.frac-cache"))
+	fracs, _, err := l.load(context.Background())
+	rt.Assert(err == nil, "the store starts")
+	rt.Reach("started")
+	rt.Assert(len(fracs) == n, "every fraction is loaded")
+	if len(fracs) == n {
+		for i := range fracs {
+			rt.Assert(fracs[i].instance.Info().Path == bases[i], "fractions are listed in creation order: retention removes the oldest first")
+		}
+	}
+	rt.Reach("end")
 }
 
 const vBase = "/data/seq-db-01"
